@@ -50,11 +50,22 @@ func (f *Tagbody) Call(s *slip.Scope, args slip.List, depth int) slip.Object {
 	ns.TagBody = true
 	d2 := depth + 1
 	for i := 0; i < len(args); i++ {
-		if gt, _ := slip.EvalArg(ns, args, i, d2).(*GoTo); gt != nil {
-			for i++; i < len(args); i++ {
-				if args[i] == gt.Tag {
+		switch args[i].(type) {
+		case slip.List, slip.Funky:
+		default:
+			continue // a tag, tags are not evaluated
+		}
+		switch tr := slip.EvalArg(ns, args, i, d2).(type) {
+		case *slip.ReturnResult:
+			return tr
+		case *GoTo:
+			for i = 0; i < len(args); i++ {
+				if args[i] == tr.Tag {
 					break
 				}
+			}
+			if len(args) <= i { // not a tag of this tagbody, let an outer one have it
+				return tr
 			}
 		}
 	}
